@@ -340,7 +340,7 @@ def run(prop, tier, seed, t0):
                 diff = next(((x, y) for x, y in zip(la, lb) if x != y), (len(la), len(lb)))
                 violation("C19/results-depend-on-other-features/%s" % f, {"feature": f, "variant": vname(v)},
                           "minimal: %s | full: %s" % diff, "byte-identical corpus output in the minimal and in the full configuration", "corpus %s" % f)
-    if stats["configurations"] < (40 if tier == "quick" else 1000) or (not violations and stats["corpus_runs"] < 14):
+    if not violations and (stats["configurations"] < (40 if tier == "quick" else 1000) or stats["corpus_runs"] < 14):
         raise Machinery("vacuity guard: C19 explored too little: %s" % stats)
     coverage = {
         "exhaustive": True,
